@@ -105,6 +105,19 @@ def confs_named(name):
     if name == 'mm:psk-swapped':
         return base(a_over={'my_auth': {"id": "alice@openikev2", "psk": "testing2"},
                             'peer_auth': {"id": "bob@openikev2", "psk": "testing"}})
+    if name.startswith('two-conns') or name.startswith('mm:two-conns'):
+        # B serves two peers that present the same identity text with different pre-shared keys (and is itself known
+        # under one identity with a different key per peer); the other connection is loaded before or after the one in use
+        c = base()
+        other = S.conn(S.IP_B, S.IP_C, "bob@openikev2", "alice@openikev2", "bobs-key-for-the-other-peer", "the-other-peers-psk",
+                       [S.entry(8)])
+        mine = c['B']['conn_ba']
+        c['B'] = {'conn_bx': other, 'conn_ba': mine} if 'other-first' in name else {'conn_ba': mine, 'conn_bx': other}
+        if name.startswith('mm:two-conns') and 'a-uses-the-other-peers-psk' in name:
+            c['A']['conn_ab']['my_auth'] = {"id": "alice@openikev2", "psk": "the-other-peers-psk"}
+        if name.startswith('mm:two-conns') and 'a-expects-the-other-peers-key' in name:
+            c['A']['conn_ab']['peer_auth'] = {"id": "bob@openikev2", "psk": "bobs-key-for-the-other-peer"}
+        return c
     if name.startswith('idtype:') or name == 'psk-cookie':
         return base()
     raise HarnessError(name)
@@ -126,8 +139,10 @@ def post_load(w, name):
         list(w.endpoints['B'].conf.ike_configurations.values())[0].my_auth.id.id_type = PayloadID.Type(11)
 
 
-GOOD = ['psk', 'psk-cookie', 'rsa', 'psk-multi', 'psk-sha1-aes128-modp', 'psk-sha512-ecp384', 'fqdn-ids', 'ip-ids']
-MISMATCH = ['mm:b-expects-other-psk', 'mm:a-expects-other-psk', 'mm:b-expects-other-id', 'mm:a-expects-other-id',
+GOOD = ['psk', 'two-conns:other-first', 'two-conns:other-last', 'psk-cookie', 'rsa', 'psk-multi', 'psk-sha1-aes128-modp', 'psk-sha512-ecp384', 'fqdn-ids', 'ip-ids']
+MISMATCH = ['mm:two-conns:other-first:a-uses-the-other-peers-psk', 'mm:two-conns:other-last:a-uses-the-other-peers-psk',
+            'mm:two-conns:other-first:a-expects-the-other-peers-key', 'mm:two-conns:other-last:a-expects-the-other-peers-key',
+            'mm:b-expects-other-psk', 'mm:a-expects-other-psk', 'mm:b-expects-other-id', 'mm:a-expects-other-id',
             'mm:b-expects-id-as-fqdn', 'mm:b-expects-prefix-id', 'mm:a-sends-rsa-b-expects-psk',
             'mm:a-sends-psk-b-expects-rsa', 'mm:b-has-wrong-pubkey', 'mm:a-signs-with-other-key',
             'mm:b-has-pubkey-and-psk-a-sends-psk-wrong', 'mm:psk-swapped', 'idtype:a-presents-fqdn',
@@ -237,7 +252,9 @@ def judge(w, confs, delivered):
             continue
         sa = sas[0]
         peer = w.endpoints[names[x]]
-        conn = list(confs[x].values())[0]
+        # the configured connection is the one for the address pair of this IKE_SA (the configuration text, not the loaded object)
+        conn = next((c for c in confs[x].values() if (c['my_addr'], c['peer_addr']) == (str(sa.my_addr), str(sa.peer_addr))),
+                    list(confs[x].values())[0])
         x_is_initiator = bool(sa.is_initiator)
         spi_i, spi_r = bytes(sa.spi_i), bytes(sa.spi_r)
         # what X saw of the peer's IKE_SA_INIT message, and what X itself sent
